@@ -730,6 +730,15 @@ where
         self.map_impl.keys_with_entries_or_locked()
     }
 
+    /// Snapshot of the internal state for verification harnesses, see [crate::verif].
+    #[cfg(feature = "verif_hooks")]
+    pub fn verif_snapshot(&self) -> Option<Vec<crate::verif::EntrySnapshot<K, V>>>
+    where
+        V: Clone,
+    {
+        self.map_impl.verif_snapshot(|v| v.clone())
+    }
+
     /// Lock all entries of the cache once. The result of this is a [Stream] that will
     /// produce the corresponding lock guards. If items are locked, the [Stream] will
     /// produce them as they become unlocked and can be locked by the stream.
